@@ -637,3 +637,9 @@ pub type BlockStateRow = (usize, String, bool);
 pub fn reclaim_snapshot() -> (Vec<FileStateRow>, Vec<BlockStateRow>) {
     crate::wal::runtime::verif_reclaim_snapshot()
 }
+
+/// (block size, blocks per file, max single allocation, max batch bytes) of this build.
+pub fn geometry() -> (u64, u64, u64, u64) {
+    use crate::wal::config::{BLOCKS_PER_FILE, DEFAULT_BLOCK_SIZE, MAX_ALLOC, MAX_BATCH_BYTES};
+    (DEFAULT_BLOCK_SIZE, BLOCKS_PER_FILE, MAX_ALLOC, MAX_BATCH_BYTES)
+}
